@@ -136,6 +136,7 @@ impl Seek for Abs {
         self.last_target = self.pos;
         unsafe {
             LAST_SEEK_TARGET = self.pos;
+            ABS_POS = self.pos;
         }
         Ok(self.pos)
     }
@@ -172,9 +173,12 @@ impl Read for Abs {
         }
         self.pos += n as u64;
         self.read_total += n as u64;
+        unsafe { ABS_POS = self.pos };
         Ok(n)
     }
 }
+/// ghost: position of the last `Abs` that was read from or moved (readable behind trait objects)
+pub static mut ABS_POS: u64 = 0;
 
 /// ghost mirror of the remaining length of the (single) `AbsSrc` of a harness
 pub static mut ABSSRC_LEFT: u64 = 0;
